@@ -197,6 +197,17 @@ PROPS = {
         rule="case i: instance kind i mod 12; 2-8 operations drawn per kind (see harness/run_reuse.go); distinct by kind + operation descriptions; non-trivial = at least 2 operations",
         trusted_base=COMMON_TB + ["extract/main.go cacheproto/resetfacts: go/ast reading of the cache functions and reset points", "sync.Map and sync.WaitGroup are assumed linearizable (Go runtime)"],
     ),
+    "C17": dict(
+        claim="theorems over the Lean transition system of the shared type caches (CE/Cache/Model.lean), for EVERY schedule - any list of goroutine ids, any number of goroutines: every call that finishes obtains exactly the result of running alone (every_call_returns_the_sequential_result); a goroutine blocked on a placeholder always has an owner that can step and every goroutine takes at most seven steps (no_goroutine_waits_forever, step_progress: no deadlock, no livelock). "
+              "The protocol the model describes is re-extracted from both cache functions on every run and proved equal to the model's expectation (CE/Gen/CheckSession.lean). "
+              "Runtime observation: the harness built with -race runs 2-64 goroutines under GOMAXPROCS 1-16, each with its own marshalers/unmarshalers/encoders/decoders/validators and all sharing one iterator.Session and one builder.Session, on reflect-made types no cache has seen (first use races on the caches), unsupported kinds included; every result is compared with the job run alone; any race report is a violation",
+        note="partial (level other): data-race freedom of the compiled program is observed by the race detector, not proved - the Go memory model at access granularity is not modelled; the theorems assume sync.Map / sync.WaitGroup are linearizable with Done happening-before Wait's return. Documents that differ only in Go's random map order are compared as data (Lean TREE.EQ)",
+        level="other", n_quick=160, n_thorough=8000, shards=8, race=True, timeout_quick=900,
+        lean_modules=["CE.Props.C17", "CE.Cache.Proofs", "CE.Gen.CheckSession"],
+        rule="per case 3-7 fresh struct types (one in five of an unsupported kind) x 7 jobs each + 4 event-level jobs; goroutines in {2,3,4,8,16,32,(64)}, GOMAXPROCS in {1,2,4,8,16}; every goroutine runs all jobs in its own random order; distinct by job list",
+        trusted_base=COMMON_TB + ["Go race detector (runtime observation only)", "sync.Map and sync.WaitGroup assumed linearizable"],
+        technique="Lean 4 theorems over a transition-system model of the cache protocol for all schedules, tied by regenerated protocol facts; -race runs as supporting observation",
+    ),
     # NEW-ENTRIES-ABOVE
 }
 
